@@ -906,7 +906,8 @@ def from_dict(
 
     for name, value in non_init_args.items():
         logger.debug(f"Setting non-init field '{name}' on the instance.")
-        setattr(instance, name, value)
+        # (`object.__setattr__`: the dataclass might be frozen.)
+        object.__setattr__(instance, name, value)
     return instance
 
 
